@@ -478,3 +478,5 @@ def run(ctx):
     boundaries.check_guards(ctx, 'C09.RG', 'C09')
     boundaries.check_calls(ctx, 'C09.RC', 'C09')
     boundaries.check_amounts(ctx, 'C09.RA', 'C09')
+    from .. import errdisc
+    errdisc.check(ctx, 'C09.RD', 'C09', 77)
